@@ -465,7 +465,10 @@ class TensorProductCell(AbstractCell):
         raise NotImplementedError(f"TensorProductCell.sub_entities({dim}) is not implemented.")
 
     def _lt(self, other) -> bool:
-        return self._ufl_hash_data_() < other._ufl_hash_data_()
+        # The hash data of nested tensor product cells are tuples of
+        # different nesting depth, which cannot be compared: compare the
+        # (unique) representations instead.
+        return repr(self) < repr(other)
 
     @property
     def cellname(self) -> str:
